@@ -3,7 +3,7 @@ from __future__ import annotations
 
 from typing import List
 
-from ..kit import Ctx, calls, calls_target, kw, loops, rule, short
+from ..kit import Ctx, caller_ok, calls, calls_target, kw, loops, rule, short
 from ..paths import Event
 from ..terms import NONE, key, strip_ver
 from .runner import ADD, CANCEL, EXEC, HO, handling_blocks
@@ -72,5 +72,5 @@ def r3(ctx: Ctx) -> None:
         sites = ctx.cg.sites_by_name(name)
         ctx.require(len(sites) >= 2, f"call sites of {name} not found")
         for s in sites:
-            ok = s.caller.qualname == HO or (s.caller.name == name and s.caller.cls is not None and ctx.program.is_subclass(s.caller.cls.name, "Agent"))
+            ok = caller_ok(ctx, s.caller, lambda g: g.qualname == HO or (g.name == name and g.cls is not None and ctx.program.is_subclass(g.cls.name, "Agent")))
             ctx.check(ok, s.caller, s.node, f"caller of {name}", f"{HO} (or an agent's own override delegating to its base)", s.caller.qualname)
